@@ -54,6 +54,7 @@ type c10Case struct {
 	Aggressive  bool           `json:"aggressive"`
 	MaxAttempts int            `json:"max_attempts"`
 	Perm        int            `json:"map_order"`
+	Unlisted    bool           `json:"h2_not_in_published_list,omitempty"` // h2 was dropped from active_nodes earlier (e.g. down for long)
 	Dev         *sim.Deviation `json:"deviation,omitempty"`
 }
 
@@ -64,9 +65,24 @@ func c10Run(r *vt.Run, c c10Case) (points []sim.Point) {
 	spec := Spec{HA: []string{"h1", "h2", "h3"}, Conf: map[string]string{"failover": "false", "semi_sync": fmt.Sprint(c.SemiSync),
 		"replication_repair_aggressive_mode": fmt.Sprint(c.Aggressive), "replication_repair_max_attempts": fmt.Sprint(c.MaxAttempts),
 		"replication_repair_cooldown": "10s", "wait_start_replication_timeout": "2s"}}
-	violate := func(clause, detail string) {
-		r.Violate("C10/"+clause, detail+fmt.Sprintf("; case %+v", c), c)
-	}
+	// violations are reported when the execution is over: the signature names the single injected
+	// fault by kind and statement ("fault-free" without one), so that a recorded finding about one
+	// failing statement never hides the same clause failing elsewhere
+	type vio struct{ clause, detail string }
+	var found []vio
+	violate := func(clause, detail string) { found = append(found, vio{clause, detail}) }
+	defer func() {
+		suffix := "/fault-free"
+		if c.Dev != nil {
+			suffix = "/" + c.Dev.Kind.String() + "@?"
+			if c.Dev.At < len(points) {
+				suffix = "/" + c.Dev.Kind.String() + "@" + points[c.Dev.At].Kind + ":" + points[c.Dev.At].Op
+			}
+		}
+		for _, v := range found {
+			r.Violate("C10/"+v.clause+suffix, v.detail+fmt.Sprintf("; case %+v", c), c)
+		}
+	}()
 	var noteErr func()
 	Bubble(r.T, spec, func(h *H) {
 		vmap.Perm = c.Perm
@@ -118,6 +134,9 @@ func c10Run(r *vt.Run, c c10Case) (points []sim.Point) {
 		}
 		if !c.SemiSync {
 			m.SSMaster = false
+		}
+		if c.Unlisted {
+			w.ZK.Put(vns+"/active_nodes", `["h1","h3"]`)
 		}
 		switch c.Master {
 		case 1:
@@ -328,13 +347,15 @@ func checkC10(r *vt.Run) {
 		pts := c10Run(r, c)
 		focus := c.Aggressive && c.Nodes[1] == healthy && c.Master == 0 && c.Nodes[0].Exec == 0 && c.Nodes[0].RO && !c.Nodes[0].Offline && c.Nodes[0].SS &&
 			c.Nodes[0].Source == srcMaster && (c.Nodes[0].Threads == thSQLErrPersistent || c.Nodes[0].Threads == thIOError)
-		if focus || r.Thorough() && c.Nodes[1] == healthy && (idx%7 == 0 || c.Nodes[0].Threads >= thIOError) {
+		// ... and the repair of a stale master (every statement of its re-pointing and marking)
+		focus = focus || c.Nodes[1] == healthy && c.Master == 0 && c.Nodes[0].Source == srcNone && c.Nodes[0].Exec == 1 && c.Nodes[0].SS
+		if focus || r.Thorough() && c.Nodes[1] == healthy && (idx%7 == 0 || c.Nodes[0].Threads >= thIOError || c.Nodes[0].Source == srcNone) {
 			// one failing state-changing call at every call of every iteration (b = 1)
 			for i, p := range pts {
 				if p.Fails || !p.Mut {
 					continue
 				}
-				if !r.Thorough() && (p.Kind != "sql" || p.Target != "h2") {
+				if !r.Thorough() && !(p.Kind == "sql" && p.Target == "h2" || p.Kind == "zk" && c.Nodes[0].Source == srcNone && (strings.Contains(p.Target, "/recovery") || strings.HasSuffix(p.Target, "/active_nodes"))) {
 					continue
 				}
 				r.Count("deviations_b1")
@@ -353,6 +374,12 @@ func checkC10(r *vt.Run) {
 					return
 				}
 				run(c10Case{Nodes: [2]c10Node{n2, healthy}, Master: ms, SemiSync: cf.semi, Aggressive: cf.aggr, MaxAttempts: cf.max})
+			}
+			// stale masters that are not (any more) members of the published list
+			for _, n2 := range all {
+				if n2.Source == srcNone && n2.SS {
+					run(c10Case{Nodes: [2]c10Node{n2, healthy}, Master: ms, SemiSync: cf.semi, Aggressive: cf.aggr, MaxAttempts: cf.max, Unlisted: true})
+				}
 			}
 			for _, n2 := range few {
 				for _, n3 := range few {
